@@ -9,6 +9,7 @@ idempotence, equal verdicts on probe frames.
 """
 from __future__ import annotations
 
+import copy
 import json
 import warnings
 
@@ -53,6 +54,9 @@ def gen_check(rng, dtype):
     elif dtype == "datetime64[ns]":
         k = rng.choice(["ge", "le", "gt"])
         args = {"ge": ["2020-01-01"], "le": ["2030-01-01"], "gt": ["2019-06-01 12:30:00"]}[k]
+        if rng.random() < 0.5:      # bounds with sub-second parts (milli / micro / nanoseconds only)
+            args = [rng.choice(["2020-01-01 00:00:07.500", "2020-01-01 00:00:07.000250", "2020-01-01 00:00:07.000000500",
+                                "2021-03-04 05:06:07.123456789", "2020-01-01 00:00:00.000000001"])]
     else:
         k, args = "isin", [[True, False]]
     return {"kind": k, "args": args, "opts": opts, "ts": dtype == "datetime64[ns]"}
@@ -102,13 +106,33 @@ def gen_schema(rng):
            "unique": (rng.sample(names, min(len(names), rng.randint(1, 2))) if names and rng.random() < 0.2 else None),
            "dtype": rng.choice([None, None, None, "int64", "float64", "str"])}
     dfchecks = [gen_check(rng, "int64")] if rng.random() < 0.15 else []
-    return {"columns": cols, "index": index, "top": top, "checks": dfchecks}
+    share = False
+    if len(index) >= 2 and rng.random() < 0.5:
+        # the same Check *instance* carried by two components (levels of a MultiIndex are not copied on construction)
+        src = index[0]
+        if not src["checks"]:
+            src["checks"] = [gen_check(rng, src["dtype"])]
+        if rng.random() < 0.6:
+            src["checks"][0]["opts"] = dict(src["checks"][0]["opts"], ignore_na=False)
+        index[1]["dtype"] = src["dtype"]
+        index[1]["checks"] = [copy.deepcopy(src["checks"][0])]
+        share = True
+    return {"columns": cols, "index": index, "top": top, "checks": dfchecks, "share": share}
 
 
 def build(A):
     import pandera as pa
     cols = {nm: pa.Column(**dict(c, checks=[real_check(x) for x in c["checks"]])) for nm, c in A["columns"].items()}
-    lv = [pa.Index(**dict(i, checks=[real_check(x) for x in i["checks"]])) for i in A["index"]]
+    memo = {}
+
+    def shared(x):
+        if not A.get("share"):
+            return real_check(x)
+        k = json.dumps(x, sort_keys=True, default=str)
+        if k not in memo:
+            memo[k] = real_check(x)
+        return memo[k]
+    lv = [pa.Index(**dict(i, checks=[shared(x) for x in i["checks"]])) for i in A["index"]]
     index = None if not lv else lv[0] if len(lv) == 1 else pa.MultiIndex(lv)
     return pa.DataFrameSchema(cols, index=index, checks=[real_check(x) for x in A["checks"]], **A["top"])
 
